@@ -257,7 +257,40 @@ def replay_world(w: dict) -> List[Tuple[str, dict, str]]:
             if a0 == a:
                 return fails + [("_obs", {"cause": "visited/dedupe inert"}, cmp[0][2])]
         fails += cmp
+    # the budgets must also bind when the stage cache is warm: the same world is first propagated without
+    # slice caps (looser) and then, in the same process with the cache on and not reset, with them
+    if not fails and not w["guard"] and (w["cp"]["siter"] != NOCAP or w["cp"]["spops"] != NOCAP):
+        fails += warm_cache_case(w, variant, a)
     return fails
+
+
+def warm_cache_case(w: dict, variant: int, cold: dict) -> List[Tuple[str, dict, str]]:
+    t1 = _repo_t1()
+    t1._T1_CACHE = None
+    t1._T1_CACHE_CFG = None
+    t1._T1_CACHE_KIND = None
+    try:
+        store, text = build_store([w], ["g:main"])
+        state = {"store": store, "active_graphs": ["g:main"]}
+        loose = build_ctx(dict(w["cp"], siter=NOCAP, spops=NOCAP), w["grid"], variant)
+        tight = build_ctx(w["cp"], w["grid"], variant)
+        for c in (loose, tight):
+            c.cfg.t1["cache"] = {"enabled": True, "max_entries": 64, "ttl_s": 3600}
+        t1.t1_propagate(loose, state, text)
+        warm = alpha(t1.t1_propagate(tight, state, text))
+    except Exception as e:  # noqa: BLE001
+        return [("Construct", {"cause": type(e).__name__}, f"t1_propagate (warm cache) raised {type(e).__name__}: {e}")]
+    finally:
+        t1._T1_CACHE = None
+        t1._T1_CACHE_CFG = None
+        t1._T1_CACHE_KIND = None
+    out = []
+    for f in ("touched", "pops", "iters", "props", "rhits", "lhits", "nhits"):     # max_delta is a fresh-only gauge
+        if warm[f] != cold[f]:
+            out.append(("SliceCapsTighten", {"cause": "warm stage cache", "field": f},
+                        f"{f}: with a warm stage cache (same world propagated before without slice caps) {warm[f]!r}, "
+                        f"cold / spec {cold[f]!r} under slice caps pops={w['cp']['spops']} iters={w['cp']['siter']}"))
+    return out
 
 
 def replay_multi(ws: List[dict]) -> List[Tuple[str, dict, str]]:
